@@ -197,6 +197,15 @@ impl Tape {
         ];
         self.string_of(A, max)
     }
+    /// like `text`, with upper-case letters (also ones whose case mapping changes the length) in the alphabet
+    pub fn text_mixed(&mut self, max: usize) -> String {
+        const A: &[char] = &[
+            'a', 'b', 'z', '0', '9', ' ', '-', '.', ':', '/', '"', '\\', '\n', '\t', '{', '}', '[', ']',
+            ',', '\u{e9}', '\u{4e2d}', '\u{1f600}', '\u{7f}', '\u{1}', '+', '%', '&', '=', '?',
+            'A', 'Q', 'Z', '\u{c9}', '\u{130}', '\u{df}',
+        ];
+        self.string_of(A, max)
+    }
     pub fn option<T>(&mut self, f: impl FnOnce(&mut Tape) -> T) -> Option<T> {
         if self.flag() {
             Some(f(self))
